@@ -5,7 +5,7 @@ import sys, os, subprocess, json, hashlib
 HERE = os.path.dirname(os.path.abspath(__file__))
 repo, outdir = sys.argv[1], sys.argv[2]
 os.makedirs(outdir, exist_ok=True)
-JOBS = [("translate_tables.py", "Tables.v"), ("translate_prims.py", "Prims.v"), ("translate_extra.py", "Extra.v")]
+JOBS = [("translate_tables.py", "Tables.v"), ("translate_prims.py", "Prims.v"), ("translate_extra.py", "Extra.v"), ("translate_loops.py", "Loops.v")]
 rc_all = 0
 for script, target in JOBS:
     p = subprocess.run([sys.executable, os.path.join(HERE, script), repo], stdout=subprocess.PIPE, stderr=subprocess.PIPE, text=True)
